@@ -21,6 +21,7 @@ Require Import PV.Comb.PState PV.Comb.Utf8 PV.Peg.Ast.
 Require Import PV.Iter.Queue PV.Peg.Spec.
 Require Import PV.Meta.Tokens PV.Meta.Unescape PV.Meta.Consume PV.Meta.Spell PV.Meta.Text PV.Meta.LexProofs PV.Meta.Proofs PV.Meta.Top.
 Require Import PV.Meta.PegRules PV.Meta.LexPeg.
+Require Import PV.Meta.TokFinal.
 
 (* ---------------------------------------------------------------------------------------------
    THE FULL STATEMENT (pinned; proved modulo the tokenisation half, see C07_partial (6))
@@ -153,6 +154,20 @@ Theorem C07_reduction : C07_tokenisation_statement -> C07_statement.
 Proof. intros T extras G text S. apply (reduction extras G text); [intros cg P V F; exact (T extras cg text P V F)|exact S]. Qed.
 
 (* ---------------------------------------------------------------------------------------------
+   THE TOKENISATION HALF, EXPRESSION LEVEL (coq/Meta/Tok*.v): grammar.pest under Peg.Spec tokenises EVERY spelling
+   of every concrete grammar as tokens_of_grammar cg: grammar_rules, grammar_rule (modifiers, braces), grammar_doc /
+   line_doc, expression (optional leading bar, infix chain), term (tag, prefix operators, node, postfix operators),
+   node (parentheses | terminal), terminal (_push_literal, _push, peek_slice, identifier, string, insensitive_string,
+   range, in this order), the counted repetitions in the order exact / min / max / min_max; by induction over the
+   printed concrete expression.  Hence the full statement.
+   --------------------------------------------------------------------------------------------- *)
+Theorem C07_tokenisation : C07_tokenisation_statement.
+Proof. exact tokenisation. Qed.
+
+Theorem C07_reader_reconstructs : C07_statement.
+Proof. exact (C07_reduction C07_tokenisation). Qed.
+
+(* ---------------------------------------------------------------------------------------------
    THE CODE AS SHIPPED DEVIATES (witnesses replayed on the real code by the harness in every run)
    --------------------------------------------------------------------------------------------- *)
 (* D1: a = { ^ "b" } - a blank between the caret and the literal, legal since insensitive_string is not atomic -
@@ -219,6 +234,8 @@ Proof. vm_compute. repeat split. Qed.
 Print Assumptions C07_partial.
 Print Assumptions C07_lexical.
 Print Assumptions C07_reduction.
+Print Assumptions C07_tokenisation.
+Print Assumptions C07_reader_reconstructs.
 Print Assumptions C07_insens_space_refuted.
 Print Assumptions C07_nested_leading_bar_refuted.
 Print Assumptions C07_shipped_refuted.
